@@ -25,6 +25,15 @@ pub fn plan(tier: &str, seed: u64) -> Vec<Batch> {
         for i in 0..n {
             v.push(Batch { check: "C14".into(), phase: "twin".into(), uni: uni.clone(), seed, lo: i * PER_BATCH, hi: (i + 1) * PER_BATCH, fresh: false, tier: tier.into(), extra: Value::Null });
         }
+        // the same twins with transient faults inside the library's calls: an operation that still
+        // reports success must have had exactly the reference effect
+        // canonical operations under every (system call, errno of its catalogue)
+        for sc in 0..fault_scenarios().len() as u64 {
+            v.push(Batch { check: "C14".into(), phase: "fault-enum".into(), uni: uni.clone(), seed, lo: sc, hi: sc + 1, fresh: false, tier: tier.into(), extra: Value::Null });
+        }
+        for i in 0..(n / 3).max(1) {
+            v.push(Batch { check: "C14".into(), phase: "faulted".into(), uni: uni.clone(), seed, lo: i * PER_BATCH, hi: (i + 1) * PER_BATCH, fresh: false, tier: tier.into(), extra: Value::Null });
+        }
     }
     v
 }
@@ -87,6 +96,74 @@ pub fn gen_case(seed: u64, idx: u64, uni: &UniCfg) -> Case {
     c.world = Some(world);
     c.jobs = vec![ops];
     c.umask = *rng.pick(&[0o022u32, 0o022, 0, 0o077, 0o027]);
+    c
+}
+
+pub fn fault_world() -> WorldSpec {
+    let mut w = WorldSpec::default();
+    w.push(crate::world::Entry::dir("root"));
+    w.push(crate::world::Entry::file("root/d/src", "SRC"));
+    w.push(crate::world::Entry::file("root/d/precious", "PRECIOUS"));
+    w.push(crate::world::Entry::file("root/e/other", "OTHER"));
+    w.push(crate::world::Entry::dir("root/e/sub"));
+    w.push(crate::world::Entry::link("root/l", "d"));
+    w.push(crate::world::Entry::file("outside/secret", "OUTSIDE-SECRET"));
+    w
+}
+
+pub fn fault_scenarios() -> Vec<OpSpec> {
+    let o = OpSpec::new;
+    let s = |x: &str| x.to_string();
+    vec![
+        o(Op::Rename { src: s("d/src"), dst: s("d/precious"), flags: 1 }), // RENAME_NOREPLACE onto an existing entry
+        o(Op::Rename { src: s("d/src"), dst: s("e/other"), flags: 2 }),    // RENAME_EXCHANGE
+        o(Op::Rename { src: s("d/src"), dst: s("e/new"), flags: 1 }),
+        o(Op::Rename { src: s("l/src"), dst: s("e/sub/x"), flags: 0 }),
+        o(Op::Rename { src: s("d/src"), dst: s("d/precious"), flags: 1 }).c(),
+        o(Op::Rename { src: s("d/src"), dst: s("e/gone"), flags: 4 }), // RENAME_WHITEOUT
+        o(Op::Create { path: s("e/sub/hl"), kind: CreateKind::Hardlink(s("d/src")) }),
+        o(Op::Create { path: s("e/newdir"), kind: CreateKind::Dir(0o750) }),
+        o(Op::Create { path: s("e/fifo"), kind: CreateKind::Fifo(0o640) }),
+        o(Op::Create { path: s("e/sl"), kind: CreateKind::Symlink(s("../d/src")) }),
+        o(Op::CreateFile { path: s("e/newfile"), flags: libc::O_WRONLY | libc::O_EXCL, mode: 0o640 }),
+        o(Op::CreateFile { path: s("d/precious"), flags: libc::O_RDWR | libc::O_TRUNC, mode: 0o600 }),
+        o(Op::RemoveFile { path: s("l/precious") }),
+        o(Op::RemoveDir { path: s("e/sub") }),
+    ]
+}
+
+fn run_fault_enum(u: &mut Universe, b: &Batch, idx: u64, st: &mut Stats) -> bool {
+    let op = fault_scenarios()[idx as usize].clone();
+    let mk = |script: Vec<crate::sup::Dec>| {
+        let mut c = Case::new("C14", "fault-enum", b.uni.clone());
+        c.world = Some(fault_world());
+        c.jobs = vec![vec![op.clone()]];
+        c.plan.script = script;
+        c
+    };
+    let out0 = run_case(u, &mk(vec![]), &mut crate::sup::NoHooks, false);
+    if let Some(e) = &out0.harness_error {
+        st.harness_errors.push(format!("fault-enum {idx}: {e}"));
+        return false;
+    }
+    let sites: Vec<(usize, i64)> = out0.trace.iter().filter(|e| e.lib && e.op == Some(0) && e.nr != crate::seam::HYPERCALL_NR && e.nr != libc::SYS_futex).map(|e| (e.step, e.nr)).collect();
+    for (step, nr) in sites {
+        for f in crate::sup::fault_catalogue(nr) {
+            let case = mk(vec![crate::sup::Dec { step, fault: Some(f), ..Default::default() }]);
+            if !eval_case(u, &case, st, false) || u.poisoned {
+                return false;
+            }
+            st.count("fault_enum.placements", 1);
+        }
+    }
+    true
+}
+
+pub fn gen_faulted_case(seed: u64, idx: u64, uni: &UniCfg) -> Case {
+    let mut c = gen_case(seed ^ 0xFA17, idx, uni);
+    let mut rng = Rng::new(rng::derive(seed, "C14-faults", idx));
+    c.phase = "faulted".into();
+    c.plan = crate::sup::Plan { seeded: Some(crate::sup::Seeded { seed: rng.next(), p_switch: 0, p_attack: 0, p_fault: *rng.pick(&[30u64, 60, 120]), max_attacks: 0, pct_depth: 0 }), ..Default::default() };
     c
 }
 
@@ -332,6 +409,13 @@ pub fn eval_case(u: &mut Universe, case: &Case, st: &mut Stats, sample: bool) ->
         st.evaluations += 1;
         st.count(&format!("outcome.{}.{}", spec_i.name(), rec.outcome.class().split(':').take(3).collect::<Vec<_>>().join(":")), 1);
         let mut problems: Vec<(String, String)> = Vec::new();
+        if rec.faults_inside > 0 {
+            st.count(if rec.outcome.is_ok() { "faulted.op_succeeded_despite_fault" } else { "faulted.op_failed" }, 1);
+            if !rec.outcome.is_ok() && !matches!(rec.outcome, Outcome::Panic(_)) {
+                // a failing call under a fault is C10's subject; the twins are out of lockstep now
+                break;
+            }
+        }
         let lib_errno = match &rec.outcome {
             Outcome::Err { errno, .. } => Some(*errno),
             Outcome::Panic(m) => {
@@ -410,6 +494,13 @@ pub fn run(u: &mut Universe, b: &Batch, st: &mut Stats) {
                 Some(c) => c,
                 None => return,
             }
+        } else if b.phase == "fault-enum" {
+            if !run_fault_enum(u, b, idx, st) {
+                return;
+            }
+            continue;
+        } else if b.phase == "faulted" {
+            gen_faulted_case(b.seed, idx, &b.uni)
         } else {
             gen_case(b.seed, idx, &b.uni)
         };
@@ -428,12 +519,12 @@ pub fn finalise(tier: &str, seed: u64, res: coord::CheckResult) -> i32 {
         tier,
         seed,
         "exploration",
-        "one evaluation = one single-entry operation (create of every inode kind, create_file, remove_file, remove_dir, rename with flags; Rust or C facade; decorated paths incl. trailing slash, final '.'/'..', through symlinks) executed by libpathrs on world A and by the reference procedure (split at the last '/', raw openat2(RESOLVE_IN_ROOT) of the parent, one raw *at call on the final name) on an identical world B; outcome errno and whole-world snapshots are compared after every operation; non-trivial = the operation succeeded (changed the tree); distinct = hash of (case, op index)",
+        "one evaluation = one single-entry operation (create of every inode kind, create_file, remove_file, remove_dir, rename with flags; Rust or C facade; decorated paths incl. trailing slash, final '.'/'..', through symlinks) executed by libpathrs on world A and by the reference procedure (split at the last '/', raw openat2(RESOLVE_IN_ROOT) of the parent, one raw *at call on the final name) on an identical world B; outcome errno and whole-world snapshots are compared after every operation; faulted phase: the same twins with seeded transient faults (3-12 % of the library's system calls, errnos from the per-call catalogue incl. ENOSYS/EINVAL for renameat2) - (and, for 14 canonical operations - rename with every flag, every create kind, create_file, remove_* - every (system call, errno of its catalogue) placement is enumerated) an operation that reports success although a call inside it failed must still have exactly the reference outcome and tree (an operation that fails under the fault ends the run: that is C10's subject); non-trivial = the operation succeeded (changed the tree); distinct = hash of (case, op index)",
         res,
         Map::new(),
         vec!["umask 022 in both worlds".into(), "the C wrappers' documented decoding of mknod mode words is part of the reference".into()],
         false,
-        &|b, run| Some(gen_case(b.seed, run, &b.uni)),
+        &|b, run| if b.phase == "faulted" { Some(gen_faulted_case(b.seed, run, &b.uni)) } else { Some(gen_case(b.seed, run, &b.uni)) },
     )
     .exit_code
 }
